@@ -36,8 +36,20 @@ def translate_and_compile_ok(mode, pats, kwargs):
 
 
 def matcher_accepts(mode, pats, name, kwargs):
+    """The answer of the three matching entry points (direct call, compiled matcher, filter); a string starting with DISAGREE when
+    they do not give the same answer (itself a violation of every property that speaks about `matching`)."""
+    m = _mod(mode)
     fn = 'fnmatch' if mode == 'fn' else 'globmatch'
-    return getattr(_mod(mode), fn)(name, pats, **kwargs)
+    direct = getattr(m, fn)(name, pats, **kwargs)
+    if not name:
+        return direct
+    compiled = m.compile(pats, **kwargs)
+    cm = compiled.match(name)
+    ft = bool(compiled.filter([name]))
+    flt = bool((m.filter if mode == 'fn' else m.globfilter)([name], pats, **kwargs))
+    if not (direct == cm == ft == flt):
+        return f'DISAGREE: {fn}={direct} compile().match={cm} compile().filter={ft} filter={flt}'
+    return direct
 
 
 def group_count(mode, pats, kwargs):
@@ -123,7 +135,9 @@ def escape_check(kind, mode, s, flags, name):
         f = flags
         if f & m.FORCEWIN and f & m.FORCEUNIX:
             f ^= m.FORCEWIN | m.FORCEUNIX
-        pat = m.escape(s, unix=not bool(f & m.FORCEWIN))
+        win = bool(f & m.FORCEWIN)
+        # same rule as props/c09.work: in Unix mode every other string is escaped with the default `unix=None` (= the running platform)
+        pat = m.escape(s) if (not win and len(s) % 2 == 0 and kind == 'escape') else m.escape(s, unix=not win)
     fn = getattr(m, 'fnmatch' if mode == 'fn' else 'globmatch')
     return fn(name, pat, flags=flags & ~getattr(m, 'REALPATH', 0)) if not (flags & getattr(m, 'REALPATH', 0)) else _regex_accepts(m, pat, flags, name)
 
